@@ -193,14 +193,25 @@ def build_driver(extra_tags=(), race=False, out_name="hsdriver"):
                 rep[os.path.join(REPO, rel)] = os.path.join(root, f)
     ov = os.path.join(BUILD, f"overlay-{hashlib.sha1(REPO.encode()).hexdigest()[:8]}.json")
     json.dump({"Replace": rep}, open(ov, "w"), indent=1)
-    out = os.path.join(BIN, out_name)
+    # built under a per-process name (a concurrent run against another tree must not hand us its
+    # binary), then published as bin/<out_name> for the tools when this is the tree under /repo
+    final = os.path.join(BIN, out_name)
+    out = os.path.join(BIN, f".{out_name}-{os.getpid()}")
     cmd = ["go", "build", "-tags", ",".join(("verif",) + tuple(extra_tags)), "-overlay", ov]
     if race:
         cmd.append("-race")
     cmd += ["-o", out, "./internal/verifharness"]
     t0 = time.time()
     r = run(cmd, cwd=REPO, env=GOENV)
-    return r.returncode == 0, r.stdout, time.time() - t0, out
+    ok = r.returncode == 0
+    if ok and "VERIF_REPO" not in os.environ:
+        import shutil
+        tmp = final + f".tmp{os.getpid()}"
+        shutil.copy(out, tmp)
+        os.replace(tmp, final)
+    import atexit
+    atexit.register(lambda o=out: os.path.exists(o) and os.remove(o))
+    return ok, r.stdout, time.time() - t0, out
 
 
 # ------------------------------------------------------------------------------------------
